@@ -320,7 +320,7 @@ func (w *wedgeWorld) schedule(op wedgeOp, j int) (point string, wedged bool) {
 				sort.Strings(left)
 				c.Eval(1)
 				c.Violation("wedge:"+op.name+"@"+point+":requests-never-answered", id, map[string]any{
-					"schedule": "pause " + op.name + " at " + point + " | other clients send " + strings.Join(names, ", ") + " | release",
+					"schedule":             "pause " + op.name + " at " + point + " | other clients send " + strings.Join(names, ", ") + " | release",
 					"unanswered_after_60s": left, "answered": answers, "health_probe_answered": true})
 				w.env.GWs[0].Kill()
 				return point, true
